@@ -1,4 +1,5 @@
 """C12 -- a simulator run depends only on the binary, the input and the options (engines Q + S)."""
+import re
 from .. import cast, simmodel, initrules, nondet
 from ..cxxsym import Interp, Path
 from ..terms import *
@@ -281,6 +282,7 @@ def rule_r2(rep, idx):
                     'called under a test of debugInfo' if guarded else
                     ('lookupSymbol() indexes debugInfo[0] unconditionally and this call is not under a test that the table is non-empty: on a '
                      'binary without symbols (plain assembly) the run crashes here' if needs_guard else 'lookupSymbol tests the table itself'))
+    rep.rule('R2d', 'no register, store, output or exit value of any instruction byte is computed from an uninitialised local variable', floor=240)
     hooks = StubTrace()
     for b in range(256):
         if (b >> 4) == 12:
@@ -312,6 +314,12 @@ def rule_r2(rep, idx):
                                 diffs.append('%s differ: %s (off) vs %s (on)' % (nm, fa, fc))
         rep.add('R2b', key, not diffs, 'hexsim.hpp hexsim::Processor::run', ' | '.join(diffs)[:900] if diffs else
                 '%d paths identical' % len(a))
+        # R2d: nothing a step produces may be computed from a local variable that was never given a value
+        ind = sorted({m for rec in a.values() for part in rec[2:] for m in re.findall(r'uninit:(\w+)', repr(part))})
+        rep.add('R2d', key, not ind, 'hexsim.hpp hexsim::Processor::run / hexsimio.hpp',
+                ('registers, stores or output of this step depend on the uninitialised local(s) %s on some path (e.g. a read() at end of input that '
+                 'stores nothing leaves the target as it was): the run is not a function of binary, input and options' % ind) if ind else
+                'no step effect depends on an uninitialised local', nontrivial=False)
 
 
 def rule_r3(rep):
